@@ -969,6 +969,9 @@ func TestC40(t *testing.T) {
 			if p != nil {
 				acc.Case(a.name, key, class != "fixture", "panic")
 				run.Violation("panic/"+a.name, fmt.Sprintf("%s panicked on %s (%d bytes): %v", a.name, key, len(data), p), replay())
+				if class == "fixture" {
+					seenFixtureOK++ // it ran; the panic is the verdict
+				}
 				return
 			}
 			if r.viol != "" {
